@@ -26,6 +26,26 @@ CLAIMED = {
             "After every explored history Reset must make the instance bisimilar (text, tags, choices, globals, counts, canonical save, callbacks of the still-attached observers/externals/handler) to Story::new with the same seed, for two setups (with and without error handler); a path jump with call-stack reset must keep globals and counts and leave exactly one thread with one call-stack element and no pending choice.",
             "Trusted: observation function; the harness clears its own callback log when reset_state returns Ok. A reset refused while a time-limited continue is unfinished is not judged here (C08).",
             "DESIGN.md §5 C17"),
+    "C08": ("model_checking",
+            "exhaustive enumeration of pause schedules of continue_async under a virtual clock (hook H3) on the real Story: every single pause position of every line, pause after every step, all pairs per line (thorough); every public method probed at every pause point",
+            "For every choice path of every pool program and every line on it: every pause placement in the stated class gives the same lines, tags, choices and the same final globals, counts, callback log (observers, externals bound unsafe and safe) and canonical save as unsliced play; at every pause point each public method is called once: state-changing calls must be refused, and a refused (or harmless) call must leave the rest of the sliced run unchanged.",
+            "Trusted: hook H3 (pause after exactly k interpreter steps; the wall clock never fires). Schedules with 3+ pauses inside one line are not enumerated except the every-step schedule.",
+            "DESIGN.md §5 C08"),
+    "C10": ("model_checking",
+            "exhaustive enumeration of all interleavings (merges) of two flows' host-operation sequences on the real Story, with projection oracle against each flow run alone; save+load, removal of the other flow and away-and-back injected at every interleaving point",
+            "36 ordered pairs of disjoint flow scripts (lines/choices, tunnel+temps, thread, functions+glue+sequence, sticky loop with fallback, list variable) x {two named flows, default+named} x every pair of per-flow op sequences up to the bound x every merge x every injection point: each flow's transcript (results, text, tags, choices, own variables and counts) equals the one it produces alone.",
+            "Trusted: the scripts are disjoint by construction and avoid the deliberately global turn counter and random state. Three flows are not enumerated.",
+            "DESIGN.md §5 C10"),
+    "C11": ("model_checking",
+            "explicit-state exploration of host-call histories (continues, choices, observer add/remove, host assignment, reset, load) on the real Story; every op judged against a polling reference model (get_variable before/after + the host's registration list)",
+            "Every history up to the depth bound over the stated alphabet, for every pool program with globals (assignments before/between/after line ends, in functions, tunnels, choice bodies, look-ahead that is committed or rewound): per completed continue each registered (observer, variable) is notified at most once, exactly once if the polled value changed, with the value polled after the continue; host assignments notify once and immediately; nothing else notifies; removal stops exactly that registration and never panics; registrations survive reset and load.",
+            "Trusted: polling through get_variable as the reference; a variable whose value is unchanged may be notified 0 or 1 times.",
+            "DESIGN.md §5 C11"),
+    "C13": ("model_checking",
+            "explicit-state exploration of all play paths (+ reset, refused continue, redirect) of programs with uniquely named raise points, with and without handler, against a raise model read off the delivered text",
+            "8 raising programs (+2 with the constructor's version warning): warning on the first line, mid-story, in a condition, in choice bodies and choice text, twice in one line, across glue, inside functions and tunnels, error through a bad divert variable and through running out of content: every raise is delivered exactly once (handler log, or warnings/errors lists), no later continue re-delivers, an error makes that continue return Err without a handler and never with one, and stops the story until reset/redirect.",
+            "Trusted: marker-and-raise-on-one-line model (committed or discarded together). Warnings without a handler are only accounted for in histories without reset.",
+            "DESIGN.md §5 C13"),
 }
 
 ALL = [f"C{i:02d}" for i in range(1, 21)]
